@@ -761,6 +761,17 @@ func (m *model) checkFinalJustified(t *taskModel, vt *scheduler.VerifTask, now t
 			m.label("final_queue_removed")
 		}
 	case codes.Canceled:
+		// "No waiting clients" is the fate of a task whose LAST operation
+		// is abandoned, and that operation goes with it: a cancelled task
+		// that still has an operation was cancelled under a client that
+		// never left.
+		if len(vt.Operations) > 0 {
+			names := []string{}
+			for _, o := range vt.Operations {
+				names = append(names, shortName(o.Name))
+			}
+			w.failf("C02/C03: task %s was completed with %v although its operations %v still exist: it can only be cancelled for lack of waiting clients when its last operation is abandoned", t.actionID, f.GetStatus(), names)
+		}
 		m.label("final_no_waiters")
 	case codes.Internal:
 		if t.expectInternal != w.stepNo {
